@@ -2,7 +2,7 @@
 DiagramTranslator.network_translator uses, and the functions it binds) -> coq/Gen/NetBranchGen.v, in the vocabulary of
 coq/Model/DrawingPrims.v (translator_fn, sval, attr_value, nth_res, table rows) and coq/Model/NetBranch.v (gbranch, mk_gbranch).
 Sibling of section C of tools/gen_drawing.py (CircuitComponentTranslators.py); the class table, the attribute provenance
-(`self._V = V if not reverse else -V`) and the MODEL_CLASSES / UNMODELLED lists are those of gen_drawing.Elements.
+(`self._V = V if not reverse else -V`, or the same selection spelled `-V if reverse else V`) and the MODEL_CLASSES / UNMODELLED lists are those of gen_drawing.Elements.
 Fail-closed: every construct outside the subset enumerated below raises Unsupported naming file:line and construct.
 
 Accepted module (top level, nothing else)
